@@ -8,10 +8,10 @@ import (
 )
 
 const (
-	tTCB        = "leveldb.tableCompactionBuilder"
-	fParseIKey  = "leveldb.parseInternalKey"
-	keyMaxSeqV  = uint64(1)<<56 - 1
-	fUCompare   = "(*leveldb.iComparer).uCompare"
+	tTCB       = "leveldb.tableCompactionBuilder"
+	fParseIKey = "leveldb.parseInternalKey"
+	keyMaxSeqV = uint64(1)<<56 - 1
+	fUCompare  = "(*leveldb.iComparer).uCompare"
 )
 
 func mKeyMaxSeq(v ssa.Value) bool {
